@@ -2,6 +2,7 @@ package props
 
 import (
 	"fmt"
+	"os"
 	"go/constant"
 	"go/token"
 	"sort"
@@ -48,6 +49,8 @@ type Symbols struct {
 	LoopIters int
 	// Custom is tried first for whole conditions.
 	Custom func(cond ssa.Value, env Env, visit int) (val bool, known bool)
+
+	helperDepth int
 }
 
 func (s *Symbols) intVal(v ssa.Value, env Env) (int64, bool) {
@@ -79,11 +82,123 @@ func (s *Symbols) strVal(v ssa.Value, env Env) (string, bool) {
 	if c, ok := v.(*ssa.Const); ok && c.Value != nil && c.Value.Kind() == constant.String {
 		return constant.StringVal(c.Value), true
 	}
-	if name, ok := s.Str(v); ok {
-		x, ok2 := env.S[name]
-		return x, ok2
+	if s.Str != nil {
+		if name, ok := s.Str(v); ok {
+			x, ok2 := env.S[name]
+			return x, ok2
+		}
+	}
+	// strings.ToLower / ToUpper of an evaluable string
+	if call, ok := v.(*ssa.Call); ok {
+		if f := call.Call.StaticCallee(); f != nil && len(call.Call.Args) == 1 {
+			switch f.String() {
+			case "strings.ToLower":
+				if x, ok := s.strVal(call.Call.Args[0], env); ok {
+					return strings.ToLower(x), true
+				}
+			case "strings.ToUpper":
+				if x, ok := s.strVal(call.Call.Args[0], env); ok {
+					return strings.ToUpper(x), true
+				}
+			}
+		}
 	}
 	return "", false
+}
+
+// evalBoolHelper evaluates a call of a small same-module predicate over strings/ints (e.g. isMainNet(name)) by
+// walking the helper with its parameters bound to the evaluated arguments.
+func (s *Symbols) evalBoolHelper(call *ssa.Call, env Env, depth int) (bool, bool) {
+	h := call.Call.StaticCallee()
+	if h == nil || h.Pkg == nil || depth > 2 || len(h.Blocks) == 0 || len(h.Blocks) > 30 || !strings.HasPrefix(h.Pkg.Pkg.Path(), "github.com/elastos/Elastos.ELA") {
+		return false, false
+	}
+	res := h.Signature.Results()
+	if res.Len() != 1 {
+		return false, false
+	}
+	env2 := Env{B: map[string]bool{}, I: map[string]int64{}, S: map[string]string{}}
+	for i, p := range h.Params {
+		if i >= len(call.Call.Args) {
+			return false, false
+		}
+		a := call.Call.Args[i]
+		if x, ok := s.strVal(a, env); ok && s.Str != nil {
+			env2.S[fmt.Sprintf("$p%d", i)] = x
+		} else if x, ok := s.intVal(a, env); ok {
+			env2.I[fmt.Sprintf("$p%d", i)] = x
+		}
+		_ = p
+	}
+	pidx := func(v ssa.Value) (int, bool) {
+		for i, p := range h.Params {
+			if ssa.Value(p) == v {
+				return i, true
+			}
+		}
+		return 0, false
+	}
+	s2 := &Symbols{
+		Str: func(v ssa.Value) (string, bool) {
+			if i, ok := pidx(v); ok {
+				return fmt.Sprintf("$p%d", i), true
+			}
+			return "", false
+		},
+		Int: func(v ssa.Value) (string, bool) {
+			if i, ok := pidx(v); ok {
+				return fmt.Sprintf("$p%d", i), true
+			}
+			return "", false
+		},
+	}
+	s2.helperDepth = depth + 1
+	r := ssau.AbsWalk(h, ssau.AbsEnvFunc(func(i *ssa.If, visit int) (bool, bool) {
+		return s2.evalCond(i.Cond, env2, visit, i.Block().Comment)
+	}))
+	if r.Unknown != nil || r.Ret == nil || len(r.Ret.Results) != 1 {
+		if os.Getenv("ELACHECK_DEBUG") != "" {
+			fmt.Fprintf(os.Stderr, "evalBoolHelper %s: unknown=%v err=%q env=%v\n", h.Name(), r.Unknown, r.Err, env2)
+		}
+		return false, false
+	}
+	v := r.Ret.Results[0]
+	// resolve (nested) phis along the path actually walked
+	for n := 0; n < 8; n++ {
+		phi, ok := v.(*ssa.Phi)
+		if !ok {
+			break
+		}
+		at := -1
+		for k := len(r.Trace) - 1; k >= 1; k-- {
+			if r.Trace[k] == phi.Block().Index {
+				at = k
+				break
+			}
+		}
+		if at < 1 {
+			break
+		}
+		prev := r.Trace[at-1]
+		next := v
+		for i, p := range phi.Block().Preds {
+			if p.Index == prev {
+				next = phi.Edges[i]
+			}
+		}
+		if next == v {
+			break
+		}
+		v = next
+	}
+	if k, ok := v.(*ssa.Const); ok && k.Value != nil && k.Value.Kind() == constant.Bool {
+		return constant.BoolVal(k.Value), true
+	}
+	// a returned comparison
+	if b, ok := v.(*ssa.BinOp); ok {
+		return s2.evalCond(b, env2, 0, "")
+	}
+	return false, false
 }
 
 func cmp(op token.Token, a, b int64) (bool, bool) {
@@ -128,6 +243,11 @@ func (s *Symbols) evalCond(cond ssa.Value, env Env, visit int, blockComment stri
 			if v, ok2 := env.B[name]; ok2 {
 				return fin(v)
 			}
+		}
+	}
+	if call, ok := base.(*ssa.Call); ok {
+		if v, known := s.evalBoolHelper(call, env, s.helperDepth); known {
+			return fin(v)
 		}
 	}
 	if s.Nil != nil {
